@@ -237,9 +237,14 @@ func genBigFloat(r *hx.RNG, tier string) (*big.Float, string) {
 		return x, "zero"
 	}
 	m := new(big.Int).SetUint64(r.U64())
-	for m.BitLen() < int(prec) {
-		m.Lsh(m, 64)
-		m.Or(m, new(big.Int).SetUint64(r.U64()))
+	if r.Chance(25) {
+		// far fewer significant bits than the precision provides (3 held at 128 bits): Prec() and MinPrec() differ widely
+		m.SetUint64(r.U64()>>uint(r.Range(0, 63)) | 1)
+	} else {
+		for m.BitLen() < int(prec) {
+			m.Lsh(m, 64)
+			m.Or(m, new(big.Int).SetUint64(r.U64()))
+		}
 	}
 	x.SetInt(m)
 	maxE := 3000
@@ -584,6 +589,10 @@ func c15Float(c *hx.Ctx, r *hx.RNG) {
 		if r.Chance(40) {
 			v = r.Finite(r.Range(1, 120), int64(r.Range(-40, 40)))
 		}
+		if r.Chance(6) { // far beyond big.Float's own exponent range (2^31 binary, about 10^646456993), down to the ends of the decimal one
+			le := []int64{oracle.MaxExp, oracle.MinExp, oracle.MaxExp - int64(r.Range(0, 200)), oracle.MinExp + int64(r.Range(0, 200)), 1500000000, -1500000000, 700000000, -700000000}[r.Intn(8)]
+			v, cls = r.Finite(r.Range(1, 60), le), "beyond-binary-range"
+		}
 	}
 	x := hx.MkR(r, v, digitsOf(v)+uint(r.Intn(3)), r.Mode()) // (not a huge precision: a destination without one takes ceil(prec*log2(10)) bits)
 	bp := uint(r.Range(1, 300))
@@ -639,6 +648,13 @@ func c15Float(c *hx.Ctx, r *hx.RNG) {
 	case oracle.Inf:
 		if !res.IsInf() || res.Signbit() != v.Neg {
 			c.Violate("wrong-value", fmt.Sprintf("%s = %v", what, res), "")
+		}
+		return
+	}
+	if cls == "beyond-binary-range" {
+		// |x| is beyond every finite big.Float: the result saturates, with x's sign
+		if wantInf := v.LeadExp() > 0; res.Signbit() != v.Neg || res.IsInf() != wantInf || (!wantInf && res.Sign() != 0) {
+			c.Violate("wrong-value", fmt.Sprintf("%s = %v, want %s", what, res, map[bool]string{true: "an infinity", false: "a zero"}[wantInf]+" with the sign of x"), "")
 		}
 		return
 	}
